@@ -13,6 +13,7 @@ import (
 	"strconv"
 	"strings"
 	"sync"
+	"sync/atomic"
 	"time"
 
 	"github.com/cespare/xxhash/v2"
@@ -32,22 +33,22 @@ type SubCfg struct {
 }
 
 type Env struct {
-	mu       sync.Mutex
-	sc       *Scenario
-	sched    *Sched
-	res      *resolve.Resolver
-	rcancel  context.CancelFunc
-	rctxv    context.Context
-	obs      []string
-	seq      int
-	pending  map[int64]string // goroutine id -> actor name to adopt at its first yield
-	subs     map[int]*subRT
-	updaters map[int]resolve.SubscriptionUpdater // by sid of the starter
-	trigCtx  map[int]context.Context
-	trigSeen map[int]bool
-	startKey map[int]int
+	mu                               sync.Mutex
+	sc                               *Scenario
+	sched                            *Sched
+	res                              *resolve.Resolver
+	rcancel                          context.CancelFunc
+	rctxv                            context.Context
+	obs                              []string
+	seq                              int
+	pending                          map[int64]string // goroutine id -> actor name to adopt at its first yield
+	subs                             map[int]*subRT
+	updaters                         map[int]resolve.SubscriptionUpdater // by sid of the starter
+	trigCtx                          map[int]context.Context
+	trigSeen                         map[int]bool
+	startKey                         map[int]int
 	subInc, subDec, trigInc, trigDec int
-	violations []string
+	violations                       []string
 }
 
 type subRT struct {
@@ -123,7 +124,15 @@ type recWriter struct {
 	lastEv  int
 	buf     []byte
 	bufLate bool
+	busy    atomic.Int32 // writer calls in progress (writes_exclusive on the implementation side)
 }
+
+func (w *recWriter) enter() {
+	if w.busy.Add(1) != 1 {
+		w.env.log("(overlap %d)", w.sid)
+	}
+}
+func (w *recWriter) leave() { w.busy.Add(-1) }
 
 func parseCounter(p []byte) int {
 	s := string(p)
@@ -163,6 +172,8 @@ func (w *recWriter) callLate(kind string, e int, forceLate bool) {
 // A response is written in several chunks; the message is logged once (at the failing chunk, or
 // at Flush), with the lateness of its first chunk.
 func (w *recWriter) Write(p []byte) (int, error) {
+	w.enter()
+	defer w.leave()
 	if len(w.buf) == 0 {
 		w.env.mu.Lock()
 		rt := w.env.subs[w.sid]
@@ -188,6 +199,8 @@ func (w *recWriter) flushBuf() {
 	}
 }
 func (w *recWriter) Flush() error {
+	w.enter()
+	defer w.leave()
 	w.flushBuf()
 	if w.lastEv >= 0 && w.lastEv == w.cfg.FFail {
 		w.call("flushfail", 0)
@@ -196,9 +209,11 @@ func (w *recWriter) Flush() error {
 	w.call("flush", 0)
 	return nil
 }
-func (w *recWriter) Complete()          { w.call("complete", 0) }
-func (w *recWriter) Error(data []byte)  { w.call("error", 0) }
+func (w *recWriter) Complete()         { w.enter(); defer w.leave(); w.call("complete", 0) }
+func (w *recWriter) Error(data []byte) { w.enter(); defer w.leave(); w.call("error", 0) }
 func (w *recWriter) Heartbeat() error {
+	w.enter()
+	defer w.leave()
 	if w.cfg.HbFail {
 		w.call("hbfail", 0)
 		return errors.New("scripted heartbeat failure")
@@ -211,6 +226,8 @@ type errWriter struct{ env *Env }
 
 func (ew *errWriter) WriteError(ctx *resolve.Context, err error, res *resolve.GraphQLResponse, w io.Writer) {
 	if rw, ok := w.(*recWriter); ok {
+		rw.enter()
+		defer rw.leave()
 		rw.call("werr", 0)
 	}
 }
